@@ -356,6 +356,63 @@ def impl_and_oracle(mod, cassis, sc):
     return obs, msg
 
 
+def run_subsuite(sub, ctx, label=None):
+    """Runs a further suite of cases (another case type / Corr file, e.g. the JSON half of a property) with the same
+    stages as the main suite and returns extra-obligation tuples (name, ok, detail, scenario_or_None) for
+    `extra_checks`: one per agreeing shard (ok), one per case the oracle rejects (with the scenario: a concrete
+    failing input), one per case where only model and implementation disagree (scenario None)."""
+    label = label or getattr(sub, "SUITE", sub.__name__.split(".")[-1])
+    cassis, tier, seed = ctx["cassis"], ctx["tier"], ctx["seed"]
+    out = []
+    ok_build, log = coq_build(sub.COQ_TARGETS)
+    if not ok_build:
+        return [(f"{label}: coq build", False, log[-1500:], None)]
+    rng = random.Random(seed * 7919 + 17)
+    scenarios = list(sub.generate(rng, tier))
+    terms, fails = [], {}
+    observations = []
+    for i, sc in enumerate(scenarios):
+        obs, msg = impl_and_oracle(sub, cassis, sc)
+        observations.append(obs)
+        if msg:
+            fails[i] = msg
+        if obs is not None:
+            try:
+                t = sub.render(sc, obs)
+            except Exception as e:  # noqa
+                t = None
+                fails.setdefault(i, f"observation cannot be rendered for the model ({type(e).__name__}: {e})")
+            if t is not None:
+                terms.append((i, t))
+    results = run_shards(write_shards(sub, terms), jobs=getattr(sub, "SHARD_JOBS", 8)) if terms else []
+    reported = 0
+    for i, msg in sorted(fails.items()):
+        if reported >= 5:
+            break
+        small = shrink(sub, cassis, scenarios[i], lambda c: impl_and_oracle(sub, cassis, c)[1])
+        out.append((f"{label}: oracle", False, (impl_and_oracle(sub, cassis, small)[1] if small is not scenarios[i] else None) or msg,
+                    {"suite": label, "scenario": small}))
+        reported += 1
+    for k, r in enumerate(results):
+        if r["error"]:
+            out.append((f"{label}: shard {k}", False, r["error"][-800:], None))
+        else:
+            bad = [i for i in r["mismatch_idx"] if i not in fails]
+            if bad:
+                out.append((f"{label}: shard {k}", False,
+                            "model and implementation disagree on " + json.dumps(scenarios[bad[0]], default=str)[:1500], None))
+            elif not r["mismatch_idx"]:
+                out.append((f"{label}: shard {k} ({r['n']} cases, {r['premises']} inside the premises)", True, "agree", None))
+    nontriv = 0
+    for sc in scenarios:
+        try:
+            nontriv += 1 if sub.nontrivial(sc) else 0
+        except Exception:
+            pass
+    out.append((f"{label}: {len(scenarios)} cases, {len(terms)} compared in Coq, {nontriv} non-trivial", not fails or bool(reported), "summary", None))
+    return out
+
+
 # ------------------------------------------------------------------------------------------------ main flow
 
 
@@ -592,6 +649,12 @@ def run_replay(mod, path):
         print(json.dumps({k: rp[k] for k in rp if k not in ("coqc_output",)}, indent=1)[:3000])
         return 1
     sc = rp["scenario"]
+    if isinstance(sc, dict) and set(sc) == {"suite", "scenario"}:  # a case of a sub-suite (see run_subsuite)
+        subs = getattr(mod, "SUBSUITES", {})
+        if sc["suite"] not in subs:
+            print(f"replay {path}: unknown sub-suite {sc['suite']}")
+            return 1
+        mod, sc = subs[sc["suite"]], sc["scenario"]
     obs, msg = impl_and_oracle(mod, cassis, sc)
     print("scenario:", json.dumps(sc)[:2000])
     print("observation:", json.dumps(obs, default=str)[:2000])
